@@ -231,11 +231,12 @@ BODY_B = {
     "b5": ['"A @ B" + "Hp"'],
     "b6": ['f("A") - "Hp" / 2'],
     "b7": [("diagonal", '"Ad @ A"'), ("offdiagonal", '-"Hp @ A"')],
+    "b8": ['"H" + "H"'],
 }
 K3_BODY = {"k3a": [("diagonal", 'f("Hp")')], "k3b": [("diagonal", '"Hp" + f("B")'), ("offdiagonal", '"Hp"')]}
-STARTS_A = [0, 1, "H_0"]
+STARTS_A = [0, 1, "H_0", None]
 MARKERS = [None, "hermitian", "antihermitian"]
-STARTS_B = [0, None]
+STARTS_B = [0, None, "H_0"]
 RETURNS = [("A",), ("A", "B")]
 
 
@@ -259,7 +260,10 @@ def render(startA, markerA, bodyA, startB, bodyB, ret, products3=True):
     L += block("A", startA, markerA, bodyA)
     L += block("B", startB, None, bodyB)
     L += ['    with "Ad":', '        "A".adj']
+    text = " ".join(st[1] if isinstance(st, tuple) else st for st in list(bodyA) + list(bodyB))
     for p, h in (("Hp @ A", False), ("A @ B", False), ("Ad @ A", True), ("Hp @ A @ B", False)):
+        if f'"{p}"' not in text:
+            continue  # only declare the products the program uses (factors of products are never auto-deleted)
         L += [f'    with "{p}":', "        hermitian" if h else "        pass"]
     L.append("    return " + ", ".join(f'"{r}"' for r in ret) + ("," if len(ret) == 1 else ""))
     return "\n".join(L) + "\n"
@@ -277,7 +281,7 @@ def grammar_cases(tier):
                         for sB in STARTS_B:
                             for bB in BODY_B:
                                 for ret in RETURNS:
-                                    if tier == "quick" and ret == ("A", "B") and (mA is not None or sA == "H_0"):
+                                    if tier == "quick" and ret == ("A", "B") and (mA is not None or sA in ("H_0", None) or sB == "H_0"):
                                         continue
                                     out.append(dict(kind="grammar", sizes=list(sizes), k=k, sA=sA, mA=mA, bA=bA, sB=sB, bB=bB,
                                                     ret=list(ret)))
@@ -344,7 +348,7 @@ def run_grammar(case):
     compared = 0
     nontrivial = False
     top = tuple(bound)
-    subset = [("B", (0, 1) + top), ("A", (0, 0) + top), ("A", (1, 0) + top), ("Hp @ A", (0, 1) + top)]
+    subset = [("B", (0, 1) + top), ("A", (0, 0) + top), ("A", (1, 0) + top), ("Hp", (0, 1) + top)]
     schedules = [("asc", sorted(elements, key=lambda e: (sum(e[1][2:]), names.index(e[0])))),
                  ("desc", sorted(elements, key=lambda e: (-sum(e[1][2:]), -names.index(e[0])))),
                  ("outputs-last", sorted(elements, key=lambda e: (e[0] in ref.outputs, -sum(e[1][2:]))))]
